@@ -77,7 +77,7 @@ pub fn baseline() -> Value {
         },
         "rule3": {
             "id": "third", "rank": 1,
-            "source": {"scheme": null, "host": "xé2@g.example.org", "ips": null, "path": "/never/@k", "query": null, "headers": null, "methods": null, "exclude_methods": null,
+            "source": {"scheme": "https", "host": "xé2@g.example.org", "ips": null, "path": "/never/@k", "query": null, "headers": null, "methods": null, "exclude_methods": null,
                        "response_status_codes": null, "exclude_response_status_codes": null, "sampling": null},
             "target": "/t/@k", "status_code": 302, "markers": [{"name": "g", "regex": "(www|api)", "transformers": []}, {"name": "k", "regex": "[a-z]+", "transformers": []}], "variables": [],
             "body_filters": null, "header_filters": null, "log_override": null, "reset": null, "stop": null, "examples": null,
